@@ -66,8 +66,11 @@ func (ups *Socket) Connect(manager cert.TlsConfig, mustSecure bool) error {
 
 	cc, err := socketace.NewClientConnection(c, manager, secure, ups.Address.Host)
 	if err != nil {
+		// the attempt is over: the physical connection made for it is ours to close
+		streams.TryClose(c)
 		return errors.Wrapf(err, "Could not open connection")
 	} else if mustSecure && !cc.Secure() {
+		streams.TryClose(cc)
 		return errors.Errorf("Could not establish a secure connection to %v", ups.Address)
 	} else {
 		stream = cc
